@@ -198,6 +198,8 @@ func (s *Support) Cases(thorough bool) []*Case {
 			Rec: &Record{Kind: Struct, Name: id("S"), Fields: []Field{bait(), {Name: "f", Type: t}, after()}}})
 		out = append(out, &Case{ID: id("RO"), Ctx: "RO", Shape: t, Class: "RO|" + t.Class(),
 			Rec: &Record{Kind: Struct, ReadOnly: true, Name: id("RO"), Fields: []Field{bait(), {Name: "f", Type: t}, after()}}})
+		out = append(out, &Case{ID: id("SL"), Ctx: "SL", Shape: t, Class: "SL|" + t.Class(),
+			Rec: &Record{Kind: Struct, Name: id("SL"), Fields: []Field{bait(), {Name: "f", Type: t}}}})
 		mf := func(dep bool) []Field {
 			return []Field{{Name: "bait", Index: 1, Type: P("int32")}, {Name: "f", Index: 2, Type: t, Deprecated: dep}, {Name: "after", Index: 3, Type: P("int32")}}
 		}
@@ -235,6 +237,18 @@ func (s *Support) Cases(thorough bool) []*Case {
 	sp("CXIdx", "message-sparse-indices", &Record{Kind: Message, Fields: []Field{{Name: "lo", Index: 1, Type: P("int32")}, {Name: "mid", Index: 7, Type: P("string")}, {Name: "hi", Index: 255, Type: P("uint16")}}})
 	sp("CXOpS", "struct-opcode", &Record{Kind: Struct, OpCode: "0x12345678", Fields: []Field{{Name: "x", Type: P("int32")}}})
 	sp("CXOpM", "message-opcode", &Record{Kind: Message, OpCode: "\"ABCD\"", Fields: []Field{{Name: "x", Index: 1, Type: P("int32")}}})
+	// records whose values cross the decoders' pre-allocation thresholds (4096 elements / bytes): see refcodec.BigValues
+	sp("CXBigStr", "big-string", &Record{Kind: Struct, Fields: []Field{{Name: "s", Type: P("string")}, after()}})
+	sp("CXBigStrLast", "big-string-last", &Record{Kind: Struct, Fields: []Field{bait(), {Name: "s", Type: P("string")}}})
+	sp("CXBigBytes", "big-bytes-last", &Record{Kind: Struct, Fields: []Field{{Name: "b", Type: A(P("byte"))}}})
+	sp("CXBigU8", "big-uint8-array", &Record{Kind: Struct, Fields: []Field{{Name: "a", Type: A(P("uint8"))}, after()}})
+	sp("CXBigBool", "big-bool-array-last", &Record{Kind: Struct, Fields: []Field{bait(), {Name: "a", Type: A(P("bool"))}}})
+	sp("CXBigStrArr", "big-string-array", &Record{Kind: Struct, Fields: []Field{{Name: "a", Type: A(P("string"))}, after()}})
+	sp("CXBigMap", "big-map", &Record{Kind: Struct, Fields: []Field{{Name: "m", Type: M("uint32", P("bool"))}, after()}})
+	sp("CXBigMsg", "big-message", &Record{Kind: Message, Fields: []Field{{Name: "s", Index: 1, Type: P("string")}, {Name: "a", Index: 2, Type: A(P("uint16"))}, {Name: "b", Index: 3, Type: A(P("byte"))}}})
+	bigU := &Record{Kind: Union, Name: "CXBigUnion"}
+	bigU.Branches = []Branch{{1, &Record{Kind: Struct, Inline: true, Name: "CXBigUnionA", Fields: []Field{{Name: "b", Type: A(P("byte"))}}}}, {2, &Record{Kind: Message, Inline: true, Name: "CXBigUnionB", Fields: []Field{{Name: "s", Index: 1, Type: P("string")}}}}}
+	out = append(out, &Case{ID: "CXBigUnion", Ctx: "X", Class: "X|big-union", Rec: bigU})
 	// recursion through a message / a union
 	rm := &Record{Kind: Message, Name: "CXRecM"}
 	rm.Fields = []Field{{Name: "v", Index: 1, Type: P("int32")}, {Name: "next", Index: 2, Type: R(rm)}, {Name: "kids", Index: 3, Type: A(R(rm))}}
